@@ -134,7 +134,7 @@ PROPS = {
                               "zlib/adler32.c", "zlib/deflate.c", "zlib/inffast.c", "zlib/inflate.c", "zlib/inftrees.c", "zlib/trees.c", "zlib/zutil.c"],
                 prefix_defined_in=["zlib/adler32.c", "zlib/deflate.c", "zlib/inffast.c", "zlib/inflate.c", "zlib/inftrees.c", "zlib/trees.c", "zlib/zutil.c"],
                 shims=["c19_shim.c"], libs=["-lrapidcheck", "-lz"],
-                quick=dict(plan=[dict(bin="asan", mode="random", cases=2500, size=40) for _ in range(16)]),
+                quick=dict(plan=[dict(bin="asan", mode="random", cases=800, size=40) for _ in range(16)]),
                 thorough=dict(plan=[dict(bin="asan", mode="random", cases=150000, size=80) for _ in range(16)], budget_s=3000),
                 rule="a WebSocket server endpoint built from the real websocket.c, compression.c, http_connection.c and the vendored zlib (symbols prefixed) at "
                      "compression levels 0-3, driven over an in-memory reader by a client that uses the system zlib. rapidcheck generates the extension offer "
